@@ -40,6 +40,7 @@ type Side struct {
 	Signer *input.MockSigner
 	Pool   *lnwallet.SigPool
 	DB     *channeldb.DB
+	Fault  *FaultDB
 	Dir    string
 	Chan   *lnwallet.LightningChannel
 
@@ -229,7 +230,7 @@ func chanCfg(p Params, side int, keys []*btcec.PrivateKey) channeldb.ChannelConf
 	}
 }
 
-func openDB(dir string, noAmt bool) (*channeldb.DB, error) {
+func openDB(dir string, noAmt bool) (*channeldb.DB, *FaultDB, error) {
 	backend, err := kvdb.GetBoltBackend(&kvdb.BoltBackendConfig{
 		DBPath:            dir,
 		DBFileName:        "channel.db",
@@ -239,12 +240,17 @@ func openDB(dir string, noAmt bool) (*channeldb.DB, error) {
 		DBTimeout:         kvdb.DefaultDBTimeout,
 	})
 	if err != nil {
-		return nil, err
+		return nil, nil, err
 	}
-	return channeldb.CreateWithBackend(
-		backend, channeldb.OptionNoRevLogAmtData(noAmt),
+	fdb := &FaultDB{DB: backend}
+	db, err := channeldb.CreateWithBackend(
+		fdb, channeldb.OptionNoRevLogAmtData(noAmt),
 		channeldb.OptionStoreFinalHtlcResolutions(true),
 	)
+	if err != nil {
+		return nil, nil, err
+	}
+	return db, fdb, nil
 }
 
 func chanOpts() []lnwallet.ChannelOpt {
@@ -342,7 +348,7 @@ func New(t TB, p Params) *Sim {
 			t.Fatalf("tempdir: %v", err)
 		}
 		side.Dir = dir
-		side.DB, err = openDB(dir, p.NoAmtData)
+		side.DB, side.Fault, err = openDB(dir, p.NoAmtData)
 		if err != nil {
 			t.Fatalf("open db: %v", err)
 		}
